@@ -129,6 +129,7 @@ func (C11) OnCall(e *sim.Env, c *sim.Call) {
 				e.Violate("C11", "check-panic", fmt.Sprintf("CheckTx(%s)@%d panicked out of the application: %s", c.Entry.Label, c.H, firstLine(c.Panic)), c)
 			} else {
 				e.Count("c11.query_panics")
+				e.Count("c11.query_panics" + pathClass(c.QReq.Path))
 			}
 			if c.Reopened {
 				return
